@@ -3,6 +3,7 @@
 //! depth 2 on (tag byte of an element field) x (any byte of that field) in the thorough tier.
 //! Oracle: decode(b) = Ok(x)  =>  encode(x) == b;  and every root decodes and re-encodes to itself.
 use super::common::*;
+use crate::adapter::Blob;
 use crate::api::Api;
 use crate::fw::{self, Cx, Report, Tier};
 use crate::groups::G;
@@ -110,7 +111,29 @@ fn explore(api: &Api, kind: Kind, tier: Tier, seed: u64, cx: &mut Cx) {
             cx.begin_case(serde_json::Value::Null);
             match api.decode(kind, m) {
                 Err(_) => cx.outcome("rejected"),
-                Ok(r) if r == m => cx.outcome("accepted-canonical"),
+                Ok(r) if r == m => {
+                    cx.outcome("accepted-canonical");
+                    // a different byte string that is a valid encoding is a different message: the library's own `==`
+                    // on the decoded objects must say so too ("never treated as the same message")
+                    // (not asked for alias candidates: those are constructed to DENOTE the same group element - e.g. a
+                    // Curve25519 u-coordinate with bit 255 set or not reduced mod p, which RFC 7748 accepts and the
+                    // library keeps verbatim - and point equality rightly says so; whether such an encoding may be
+                    // accepted at all is the re-encoding criterion above)
+                    if m != &b[..] && !class().starts_with("alias/") {
+                        match api.same(kind, &Blob::n(b), &Blob::n(m)) {
+                            Ok(true) => {
+                                cx.outcome("TYPED-EQUALITY-IGNORES-BYTES");
+                                let mut h = how();
+                                h["decoder"] = json!(kind.name());
+                                h["root"] = json!(root.name);
+                                h["input"] = json!(hex::encode(m));
+                                cx.violate_case(&format!("{}/typed-equality/{}", kind.name(), class()), format!("two different valid encodings of {} decode to objects the library's == treats as equal ({})", kind.name(), class()), h);
+                            }
+                            Ok(false) => {}
+                            Err(e) => cx.violate_case("machinery/typed-equality", format!("{:?}", e), json!({"decoder": kind.name()})),
+                        }
+                    }
+                }
                 Ok(r) => {
                     cx.outcome("ACCEPTED-NONCANONICAL");
                     let mut h = how();
@@ -235,6 +258,114 @@ fn explore(api: &Api, kind: Kind, tier: Tier, seed: u64, cx: &mut Cx) {
         "actions": "truncate to every length; extend by 1..64 (3 patterns); alias arithmetic per field; set byte (see bounds)"}));
 }
 
+/// all arrays inside a JSON value, as paths
+fn array_paths(v: &serde_json::Value, cur: &mut Vec<String>, out: &mut Vec<(Vec<String>, usize)>) {
+    match v {
+        serde_json::Value::Array(a) => {
+            out.push((cur.clone(), a.len()));
+            for (i, x) in a.iter().enumerate() {
+                cur.push(i.to_string());
+                array_paths(x, cur, out);
+                cur.pop();
+            }
+        }
+        serde_json::Value::Object(m) => {
+            for (k, x) in m {
+                cur.push(k.clone());
+                array_paths(x, cur, out);
+                cur.pop();
+            }
+        }
+        _ => {}
+    }
+}
+fn at_path<'a>(v: &'a mut serde_json::Value, path: &[String]) -> &'a mut serde_json::Value {
+    let mut cur = v;
+    for p in path {
+        cur = match cur {
+            serde_json::Value::Array(a) => &mut a[p.parse::<usize>().unwrap()],
+            serde_json::Value::Object(m) => m.get_mut(p).unwrap(),
+            _ => unreachable!(),
+        };
+    }
+    cur
+}
+
+/// the STORED forms that go through serde: a field whose element sequence is shortened or lengthened must not be
+/// accepted as some other object.  Format-level freedom (whitespace, key order) is not questioned: the mutations act
+/// on the parsed JSON value of what the implementation itself wrote, and the oracle compares parsed values.
+fn serde_structural(api: &Api, kind: Kind, seed: u64, cx: &mut Cx) {
+    use crate::adapter::Codec;
+    let f = match honest(api, seed, "c10/serde", &setting(1)) {
+        Ok(f) => f,
+        Err(e) => {
+            cx.violate_case("machinery/honest-flow", e, json!({"kind": kind.name()}));
+            return;
+        }
+    };
+    let native = artefacts(&f)[&kind].clone();
+    let js = match api.recode(kind, &Blob::n(&native), Codec::Json) {
+        Ok(b) => b.bytes,
+        Err(e) => {
+            cx.violate_case("machinery/serde-encode", format!("{:?}", e), json!({"kind": kind.name()}));
+            return;
+        }
+    };
+    let root: serde_json::Value = match serde_json::from_slice(&js) {
+        Ok(v) => v,
+        Err(_) => return,
+    };
+    cx.context_done();
+    let mut paths = vec![];
+    array_paths(&root, &mut vec![], &mut paths);
+    for (path, len) in paths {
+        let mut muts: Vec<(String, serde_json::Value)> = vec![];
+        for i in 0..len {
+            let mut v = root.clone();
+            if let serde_json::Value::Array(a) = at_path(&mut v, &path) {
+                a.remove(i);
+            }
+            muts.push((format!("remove element {}", i), v));
+        }
+        for i in [0usize, len.saturating_sub(1)] {
+            if len > 0 {
+                let mut v = root.clone();
+                if let serde_json::Value::Array(a) = at_path(&mut v, &path) {
+                    let x = a[i].clone();
+                    a.insert(i, x);
+                }
+                muts.push((format!("duplicate element {}", i), v));
+            }
+        }
+        let mut v = root.clone();
+        if let serde_json::Value::Array(a) = at_path(&mut v, &path) {
+            a.push(json!(0));
+        }
+        muts.push(("append 0".into(), v));
+        for (how, v) in muts {
+            let text = serde_json::to_vec(&v).unwrap();
+            cx.begin_case(json!({"decoder": kind.name(), "codec": "Json", "array": path.join("/"), "mutation": how}));
+            if !cx.state(&(kind, "json", &text)) {
+                continue;
+            }
+            cx.edges += 1;
+            cx.path();
+            match api.recode(kind, &Blob::new(Codec::Json, text), Codec::Json) {
+                Err(_) => cx.outcome("serde-rejected"),
+                Ok(back) => {
+                    let same = serde_json::from_slice::<serde_json::Value>(&back.bytes).map(|b| b == v).unwrap_or(false);
+                    if same {
+                        cx.outcome("serde-accepted-canonical");
+                    } else {
+                        cx.outcome("SERDE-ACCEPTED-NONCANONICAL");
+                        cx.violate(&format!("{}/serde-json/{}", kind.name(), if how.starts_with("remove") { "shortened-field" } else { "lengthened-field" }), format!("the stored JSON form of {} with one array ({}) changed in length ({}) is accepted and denotes another object", kind.name(), path.join("/"), how));
+                    }
+                }
+            }
+        }
+    }
+}
+
 pub fn run(tier: Tier, seed: u64) -> i32 {
     let t0 = Instant::now();
     let mut items = vec![];
@@ -243,7 +374,8 @@ pub fn run(tier: Tier, seed: u64) -> i32 {
             items.push((api, k));
         }
     }
-    let tot = fw::run_items("C10", &items, |(a, _)| a.name().to_string(), |(api, kind), cx| explore(api, *kind, tier, seed, cx));
+    let mut tot = fw::run_items("C10", &items, |(a, _)| a.name().to_string(), |(api, kind), cx| explore(api, *kind, tier, seed, cx));
+    tot.merge(fw::run_items("C10", &items, |(a, _)| a.name().to_string(), |(api, kind), cx| serde_structural(api, *kind, seed, cx)));
     let rep = Report {
         property: "C10",
         tier,
@@ -251,10 +383,10 @@ pub fn run(tier: Tier, seed: u64) -> i32 {
         rule: "explicit-state enumeration of the decoder mutation LTS: roots = honest encodings (and encodings with special valid field values) of all 11 decoders x 20 suites; every action of the alphabet is applied to every root; a state is a distinct (decoder, byte string); oracle: decode ok => re-encode identical".into(),
         bounds: json!({"suites": 20, "decoders": 11, "depth": if tier.thorough() {2} else {1},
             "setbyte": if tier.thorough() {"every offset x all 255 other values"} else {"all 256 values of each element field's leading byte; every other offset x {^0x01, ^0x80}"},
-            "truncate": "every length 0..len-1", "extend": "1..64 bytes x {zeros, 0xAA, copy of head}", "insert_delete": "one byte inserted at every offset (6 values) / deleted at every offset", "first_byte_x_length": "first byte of every field in {00,01,02,03,04,ff} x {extend by 1, 2, truncate by 1}", "alias": "x+p, other SEC1 tags, s+p, bit 255, p-s, s+n, unclamped",
+            "truncate": "every length 0..len-1", "extend": "1..64 bytes x {zeros, 0xAA, copy of head}", "insert_delete": "one byte inserted at every offset (6 values) / deleted at every offset", "first_byte_x_length": "first byte of every field in {00,01,02,03,04,ff} x {extend by 1, 2, truncate by 1}", "serde_json_structural": "every array of the stored JSON form: each element removed, first/last duplicated, one appended", "typed_equality": "every accepted different encoding must be != under the library's own ==", "alias": "x+p, other SEC1 tags, s+p, bit 255, p-s, s+n, unclamped",
             "depth2": if tier.thorough() {"7 tags x every byte of the field x 255 values (honest roots, P-curve element fields)"} else {"-"},
             "roots_per_decoder": if tier.thorough() {"2 honest + special values per element/scalar field"} else {"1 honest + special values per element/scalar field"}}),
-        assumptions: vec!["ground truth for special valid points comes from the p256/p384/p521/curve25519-dalek crates".into(), "serde forms are out of scope for C10 (native decoders only, as the property states)".into()],
+        assumptions: vec!["ground truth for special valid points comes from the p256/p384/p521/curve25519-dalek crates".into(), "the property's 'one encoding of one fixed length' is about the native encodings; of the serde forms only this is demanded: a stored JSON form with one element sequence shortened or lengthened is not accepted as a different object".into()],
         exhaustive: true,
         crosscheck: json!(null),
     };
